@@ -373,27 +373,33 @@ fn run_flood(rep: &mut Report, seed: u64, rng: &mut StdRng, replay: vcommon::Val
     let flood_bytes: usize = 3_000_000;
     let script = Script { read_cap: [0usize, 100, 70_000][rng.gen_range(0..3)], random_chunks: rng.gen_bool(0.5), ..Default::default() };
     let (ta, mut tb, stats) = duplex(seed, script, Script::default(), Tamper::None, false);
-    let variant = rng.gen_range(0..3);
+    let variant = rng.gen_range(0..6);
+    let ctl_pick: u64 = rng.gen();
     let res = rt.block_on(async {
         let root = ctx::root();
         let fut = async {
             let q = StreamQueue::new(&root, 1, limiter::Rate::INF);
-            let mut accept = BTreeMap::new();
-            accept.insert(7u64, q.clone());
+            // variant 5: the real side is the CONNECT end of the capability (an idle RPC client); otherwise the ACCEPT end
+            let (mut accept, mut connect) = (BTreeMap::new(), BTreeMap::new());
+            if variant == 5 { connect.insert(7u64, q.clone()); } else { accept.insert(7u64, q.clone()); }
             let r: Result<u64, ()> = scope::run!(&root, |ctx, s| async move {
                 s.spawn_bg(async move {
-                    let _ = verif::run_mux(ctx, cfg, accept, BTreeMap::new(), ta).await;
+                    let _ = verif::run_mux(ctx, cfg, accept, connect, ta).await;
                     Ok(())
                 });
-                // application: accepts the stream and never reads from it
+                // application: accepts the stream and never reads from it (variant 5: never asks for a stream at all)
                 s.spawn_bg(async move {
+                    if variant == 5 {
+                        ctx.canceled().await;
+                        return Ok(());
+                    }
                     let st = q.open(ctx).await;
                     ctx.canceled().await;
                     drop(st);
                     Ok(())
                 });
                 // raw peer
-                let hs = verif::encode_mux_handshake(&[], &[(7, 1)]);
+                let hs = if variant == 5 { verif::encode_mux_handshake(&[(7, 1)], &[]) } else { verif::encode_mux_handshake(&[], &[(7, 1)]) };
                 tb.write_all(&(hs.len() as u32).to_le_bytes()).await.unwrap();
                 tb.write_all(&hs).await.unwrap();
                 let mut l = [0u8; 4];
@@ -401,22 +407,52 @@ fn run_flood(rep: &mut Report, seed: u64, rng: &mut StdRng, replay: vcommon::Val
                 let mut peer_hs = vec![0u8; u32::from_le_bytes(l) as usize];
                 tb.read_exact(&mut peer_hs).await.unwrap();
                 let handshake_bytes = (4 + hs.len()) as u64;
-                // we are the CONNECT side of stream 0: header = kind | CONNECT bit | id
-                let open: u16 = 0b0010_0000_0000_0000;
-                let data: u16 = 0b0110_0000_0000_0000;
+                // header = frame kind | stream kind of the sender | id; we are the CONNECT side of stream 0 (variant 5: the ACCEPT side)
+                let side: u16 = if variant == 5 { 0 } else { 0b0010_0000_0000_0000 };
+                let open: u16 = side;
+                let data: u16 = 0b0100_0000_0000_0000 | side;
+                let close: u16 = 0b1000_0000_0000_0000 | side;
                 if variant != 2 {
                     tb.write_all(&open.to_le_bytes()).await.unwrap();
                 }
                 // flood: never wait for anything, never read
-                let chunk = vec![0xabu8; 60_000];
                 let mut sent = 0usize;
-                while sent < flood_bytes {
-                    tb.write_all(&data.to_le_bytes()).await.unwrap();
-                    tb.write_all(&(chunk.len() as u16).to_le_bytes()).await.unwrap();
-                    tb.write_all(&chunk).await.unwrap();
-                    sent += chunk.len();
-                    if variant == 1 && sent % 600_000 == 0 {
-                        tokio::task::yield_now().await;
+                if variant <= 2 {
+                    let chunk = vec![0xabu8; 60_000];
+                    while sent < flood_bytes {
+                        tb.write_all(&data.to_le_bytes()).await.unwrap();
+                        tb.write_all(&(chunk.len() as u16).to_le_bytes()).await.unwrap();
+                        tb.write_all(&chunk).await.unwrap();
+                        sent += chunk.len();
+                        if variant == 1 && sent % 600_000 == 0 {
+                            tokio::task::yield_now().await;
+                        }
+                    }
+                } else {
+                    // control-frame flood: OPEN / CLOSE frames carry no payload but each occupies a slot of the frame-count limit;
+                    // variant 4 mixes in small DATA frames, variant 5 sends OPEN only (a CLOSE would be drained by the idle reader)
+                    let small = [0x5au8; 16];
+                    let mut x = ctl_pick | 1;
+                    let mut buf = Vec::with_capacity(70_000);
+                    while sent < flood_bytes / 4 {
+                        buf.clear();
+                        while buf.len() < 60_000 {
+                            x ^= x << 13; x ^= x >> 7; x ^= x << 17;
+                            match (variant, x % 4) {
+                                (5, _) | (_, 0) | (_, 1) => buf.extend_from_slice(&open.to_le_bytes()),
+                                (4, 3) => {
+                                    buf.extend_from_slice(&data.to_le_bytes());
+                                    buf.extend_from_slice(&(small.len() as u16).to_le_bytes());
+                                    buf.extend_from_slice(&small);
+                                }
+                                _ => buf.extend_from_slice(&close.to_le_bytes()),
+                            }
+                        }
+                        tb.write_all(&buf).await.unwrap();
+                        sent += buf.len();
+                        if x % 8 == 0 {
+                            tokio::task::yield_now().await;
+                        }
                     }
                 }
                 // let the mux pull whatever it is willing to pull
@@ -443,7 +479,8 @@ fn run_flood(rep: &mut Report, seed: u64, rng: &mut StdRng, replay: vcommon::Val
     if variant != 2 {
         rep.max("max_unconsumed_bytes_held", held);
         rep.max("bound_for_max_unconsumed", bound);
-        rep.count("flood_with_open_cases");
+        rep.count(if variant >= 3 { "flood_of_control_frames_cases" } else { "flood_with_open_cases" });
+        if variant == 5 { rep.count("flood_towards_idle_connect_side_cases"); }
     }
     if variant == 2 {
         // DATA without OPEN: data for a stream that was never opened is either dropped or held, never beyond the bound per buffering rules;
@@ -466,9 +503,22 @@ pub fn run(args: &Args, rep: &mut Report) {
         let v: vcommon::Value = vcommon::serde_json::from_slice(&std::fs::read(p).unwrap()).unwrap();
         v["replay"]["case"].as_u64().unwrap()
     });
+    let flood_only = args.extra.get("mode").map(|m| m == "mux-flood").unwrap_or(false);
+    if flood_only {
+        rep.rule = "one evaluation = one connection on which a raw peer completes the mux handshake and then floods DATA, OPEN and CLOSE frames (towards the accept and \
+                    the idle connect side) without ever reading, while the application consumes nothing; the bytes the multiplexer pulled from the transport are \
+                    compared with its configured buffer / frame-count limits; distinct = distinct (case, shard)".into();
+    }
     for case in 0..n {
         if let Some(o) = only { if o != case { continue; } } else if !rep.within_budget() { rep.count("stopped_by_budget"); break; }
         let mut rng = rng_for(args.seed, args.shard, 14, case);
+        if flood_only {
+            for k in 0..4u64 {
+                run_flood(rep, args.seed ^ (case << 8) ^ k, &mut rng, json!({"case": case, "kind": "flood"}));
+            }
+            rep.distinct(vcommon::hash_of(&(case, args.shard, "flood")));
+            continue;
+        }
         let cfg = gen_cfg(&mut rng);
         rep.evaluations += 1;
         rep.count("pair_cases");
